@@ -224,8 +224,26 @@ def gen_case(rng):
         pool, den = [rng.randint(0, 40) for _ in range(npool)], rng.choice([2, 4, 8])
     else:
         pool, den = [rng.randint(0, 10 ** 6) for _ in range(npool)], 1
+    wrepr = "pyfloat"
+    if mode == "dict":
+        # the machine representation of the caller's weights: the answer depends on their VALUES only. Magnitudes are
+        # chosen so that route sums leave the range of the small integer types (an accumulator of that type would wrap)
+        # but stay exactly representable in the accumulator the code uses (binary64: < 2^53; binary32 weights: < 2^24)
+        wrepr = rng.choice(["pyfloat", "pyint", "f64", "f32", "i8", "u8", "u8", "i16", "u16", "i32", "u32", "i64", "u64", "bool"])
+        top = {"i8": 127, "u8": 255, "i16": 32767, "u16": 65535, "i32": 2 ** 31 - 1, "u32": 2 ** 32 - 1,
+               "i64": 2 ** 40, "u64": 2 ** 40}.get(wrepr)
+        if top is not None:
+            style = "dtype-range"
+            pool, den = [rng.choice([0, 1, rng.randint(1, top), rng.randint(top // 3, top), rng.randint(top // 2, top), top])
+                         for _ in range(npool)], 1
+        elif wrepr == "bool":
+            style, pool, den = "bool", [rng.choice([0, 1, 1]) for _ in range(npool)], 1
+        elif wrepr == "pyint":
+            den = 1
+        elif wrepr == "f32" and style == "spread":
+            pool = [rng.randint(0, 10 ** 5) for _ in range(npool)]
     case = {"build": b, "mode": mode, "wpool": pool, "wden": den, "unset": rng.choice([0, 0, 2, 3, 5]),
-            "wstyle": style, "queries": []}
+            "wstyle": style, "wrepr": wrepr, "queries": []}
     # session scenarios: the answers must depend on the current mesh and the arguments only
     if rng.random() < 0.3:
         case["ambient"] = [[[rng.randrange(0, 12), rng.choice(AMBIENT_PRIOS)] for _ in range(rng.randint(1, 4))]
@@ -755,6 +773,8 @@ def run(ctx):
         ctx.count("mesh " + inf["type"])
         ctx.count("build " + (c["build"].get("name") or c["build"]["kind"]))
         ctx.count("mode " + c["mode"])
+        if c["mode"] == "dict":
+            ctx.count("custom weights given as " + c.get("wrepr", "pyfloat"))
         ctx.count("vertices<=%d" % (10 * ((inf["n"] + 9) // 10)))
         if c.get("ambient"):
             ctx.count("scenario: other PriorityQueue objects alive with pending items")
@@ -784,7 +804,8 @@ def run(ctx):
             m = judge(c, inf, qi)
             if m:
                 fails.append((ci, qi, m))
-        ctx.case_seen([c["build"], c["mode"], c["wpool"], c["wden"], c["unset"], c["queries"], c.get("ambient"), c.get("pre")],
+        ctx.case_seen([c["build"], c["mode"], c["wpool"], c["wden"], c["unset"], c.get("wrepr"), c["queries"], c.get("ambient"),
+                       c.get("pre")],
                       nontrivial=longest >= 3,
                       sample={"mesh": inf["type"], "n": inf["n"], "edges": inf["edges"][:8], "mode": c["mode"],
                               "query": c["queries"][0], "observed": inf["obs"][0][:3]})
